@@ -46,6 +46,7 @@ type Gen struct {
 	LowEra  bool   // history runs on real (low) heights: no height jumps
 
 	queue     []func(st *GovState) *Op
+	Scenarios map[string]int
 	lastBlock bool // previous op's block can be shared
 }
 
@@ -192,6 +193,11 @@ func (g *Gen) Next(st *GovState) *Op {
 			return op
 		}
 	}
+	// now and then a scripted multi-step scenario is queued (each step is generated against the state it
+	// meets; steps that do not apply are skipped); random operations continue afterwards
+	if !g.LowEra && st.View > gov.NEW_VERSION_VIEW && g.Rng.Chance(2) {
+		g.enqueueScenario(st)
+	}
 	// block structure: mostly a new block; sometimes the same block as the previous tx
 	if !(g.lastBlock && !g.LowEra && g.Rng.Chance(12)) {
 		g.nextBlock(0)
@@ -253,6 +259,122 @@ func (g *Gen) Next(st *GovState) *Op {
 	op := g.opIncome(st)
 	op.Height, op.Ts = g.Height, g.Ts
 	return op
+}
+
+// ---- scripted scenarios
+
+func (g *Gen) adminCommit(st *GovState) *Op {
+	mt := cutils.BuildNativeTransaction(GovAddr, gov.COMMIT_DPOS, []byte{})
+	mt.GasLimit = gasLimit
+	mt.Nonce = g.Height*131 + uint32(g.Rng.Intn(1<<20))
+	if err := chain.Sign(mt, g.W.BK.Acc); err != nil {
+		panic(err)
+	}
+	op := g.mk(gov.COMMIT_DPOS, "valid", "admin-style (scenario)", chain.Immutable(mt), []*Actor{g.W.BK})
+	op.Kind = "commitDpos/signed"
+	return op
+}
+
+func (g *Gen) enqueueScenario(st *GovState) {
+	pool := st.Pool()
+	switch g.Rng.Intn(2) {
+	case 0:
+		// the same node key is confiscated twice while the first penalty is still uncollected:
+		// register, black-list, epoch change, white-list, register again, black-list, epoch change
+		var free []string
+		for _, n := range g.W.Nodes {
+			if _, ok := pool[n.PK]; !ok && !st.Black[n.PK] {
+				free = append(free, n.PK)
+			}
+		}
+		if len(free) == 0 {
+			return
+		}
+		pk := free[g.Rng.Intn(len(free))]
+		reg := func(st *GovState) *Op {
+			if _, ok := st.Pool()[pk]; ok || st.Black[pk] {
+				return nil
+			}
+			owner := g.pick(g.stakeHolders())
+			minStake := uint32(10000)
+			if st.Param != nil {
+				minStake = st.Param.MinInitStake
+			}
+			initPos := minStake + uint32(g.Rng.Intn(int(minStake)+1))
+			p := &gov.RegisterCandidateParam{PeerPubkey: pk, Address: owner.Addr(), InitPos: initPos, Caller: []byte("did:ont:" + b58(owner.Addr())), KeyNo: 1}
+			op := g.govOp(gov.REGISTER_CANDIDATE, "valid", fmt.Sprintf("%s owner=%s initPos=%d (scenario double-penalty)", g.W.NodeName(pk), owner.Name, initPos), p, owner)
+			op.Addr, op.Peers, op.Amounts = owner.Addr(), []string{pk}, []uint32{initPos}
+			return op
+		}
+		black := func(st *GovState) *Op {
+			if _, ok := st.Pool()[pk]; !ok {
+				return nil
+			}
+			return g.govOp(gov.BLACK_NODE, "valid", g.nodeNames([]string{pk})+" (scenario double-penalty)", &gov.BlackNodeParam{PeerPubkeyList: []string{pk}}, g.W.BK)
+		}
+		white := func(st *GovState) *Op {
+			if !st.Black[pk] {
+				return nil
+			}
+			return g.govOp(gov.WHITE_NODE, "valid", g.W.NodeName(pk)+" (scenario double-penalty)", &gov.WhiteNodeParam{PeerPubkey: pk}, g.W.BK)
+		}
+		g.queue = append(g.queue, reg, black, g.adminCommit, white, reg, black, g.adminCommit)
+		g.Scenarios["double-penalty"]++
+	case 1:
+		// authorize on a candidate node, epoch change, authorize again, then one unauthorize that takes
+		// more than the new position but not more than new + candidate position
+		var cands []string
+		for _, pk := range sortedPeers(pool) {
+			if p := pool[pk]; p.Status == gov.CandidateStatus {
+				cands = append(cands, pk)
+			}
+		}
+		if len(cands) == 0 {
+			return
+		}
+		pk := cands[g.Rng.Intn(len(cands))]
+		who := g.pick(g.W.Stakers)
+		min := uint64(st.MinAuthorizePos())
+		if min == 0 {
+			min = 1
+		}
+		auth := func(k uint64) func(st *GovState) *Op {
+			return func(st *GovState) *Op {
+				if p, ok := st.Pool()[pk]; !ok || !active(p) {
+					return nil
+				}
+				amt := uint32(min * k)
+				prm := &gov.AuthorizeForPeerParam{Address: who.Addr(), PeerPubkeyList: []string{pk}, PosList: []uint32{amt}}
+				op := g.govOp(gov.AUTHORIZE_FOR_PEER, "valid", fmt.Sprintf("%s -> %s [%d] (scenario unauthorize-over-new)", who.Name, g.W.NodeName(pk), amt), prm, who)
+				op.Addr, op.Peers, op.Amounts = who.Addr(), []string{pk}, []uint32{amt}
+				return op
+			}
+		}
+		unauth := func(st *GovState) *Op {
+			ai := st.AuthOf(pk, who.Addr())
+			p, ok := st.Pool()[pk]
+			if !ok || ai.NewPos == 0 {
+				return nil
+			}
+			rest := ai.CandidatePos
+			if p.Status == gov.ConsensusStatus {
+				rest = ai.ConsensusPos
+			}
+			if rest < min {
+				return nil
+			}
+			amt := ai.NewPos + min*(1+uint64(g.Rng.Intn(int(rest/min))))
+			if amt > 4_294_967_295 {
+				return nil
+			}
+			prm := &gov.AuthorizeForPeerParam{Address: who.Addr(), PeerPubkeyList: []string{pk}, PosList: []uint32{uint32(amt)}}
+			op := g.govOp(gov.UNAUTHORIZE_FOR_PEER, "valid", fmt.Sprintf("%s <- %s [%d] (scenario unauthorize-over-new)", who.Name, g.W.NodeName(pk), amt), prm, who)
+			op.Addr, op.Peers, op.Amounts = who.Addr(), []string{pk}, []uint32{uint32(amt)}
+			return op
+		}
+		g.queue = append(g.queue, auth(2+uint64(g.Rng.Intn(3))), g.adminCommit, auth(1+uint64(g.Rng.Intn(3))), unauth)
+		g.Scenarios["unauthorize-over-new"]++
+	}
 }
 
 // ---- epoch change
